@@ -16,8 +16,8 @@ RULE = (
     "not canonical or the table has a NaN hole; distinct = distinct case descriptions."
 )
 BOUNDS = {
-    "quick": "all orders within 1 transposition (191) + 19 rotations + reversal; N in 1..3; N=1: every single-cell NaN; 6 construction x 2 write paths",
-    "thorough": "all orders within 2 transpositions (~17.5k) + rotations + reversal; N in 1..5; 6 construction x 2 write paths",
+    "quick": "N in {19,20,21} x 4 orders (transposition-invisible square case); all orders within 1 transposition (191) + 19 rotations + reversal; N in 1..3; N=1: every single-cell NaN; 6 construction x 2 write paths",
+    "thorough": "N in {19,20,21} x 4 orders; all orders within 2 transpositions (~17.5k) + rotations + reversal; N in 1..5; 6 construction x 2 write paths",
 }
 ASSUMPTIONS = [
     "values are finite float64 inside float32 range (palette: non-representable doubles, denormals, -0.0, 3e38) or NaN",
@@ -206,7 +206,18 @@ def families(tier, seed):
         dev = [f for f, g in zip(order, COLS) if f != g]
         return {"column_order": list(order) if dev else "canonical", "N": n, "nan_cells": [list(x) for x in pat], "construct": how, "write": w}
 
+    # list lengths that collide with the structural constant 20 (the number of fields): a 20 x 20 table is the one
+    # shape on which a transposed read or write is not caught by any shape check
+    base = tuple(COLS)
+    few_orders = [base, tuple([base[1], base[0]] + list(base[2:])), base[7:] + base[:7], tuple(reversed(base))]
+    coll = []
+    for n in (19, 20, 21):
+        coll.append((n, ()))
+        coll.append((n, ((n - 1, 0), (0, 19), (n // 2, 7))))
+    sp2 = Mapped(Product(few_orders, Listed(coll), CONSTRUCT, WRITE), mk)
     return [
+        Family("n-collides-with-field-count", sp2, execute, describe=describe,
+               expect=("file-header", "file-field-order", "load-values", "second-generation-identical")),
         Family("em-roundtrip", sp, execute, describe=describe,
                expect=("file-header", "file-field-order", "load-values", "second-generation-identical", "construct-by-name")),
     ]
